@@ -4,6 +4,9 @@ import (
 	"context"
 	"fmt"
 	"sync"
+	"time"
+
+	goat "github.com/avos-io/goat"
 
 	"google.golang.org/grpc"
 	"google.golang.org/grpc/metadata"
@@ -113,6 +116,37 @@ func c15APIUse(r *Run) {
 			r.Count("apiuse." + prog)
 		}
 		rig.Close()
+	}
+	// the proxy: a peer attaches itself (AddClient) under a name for which an outgoing dial is still in
+	// flight, or has just completed, with no synchronisation between the two but the proxy's own; the dial
+	// takes its time by sleeping (a gate channel would order the accesses)
+	for i, n := 0, r.Scale(12, 120); i < n; i++ {
+		r.Progress("apiuse.dialattach", i)
+		ctx, cancel := context.WithCancel(context.Background())
+		dialOK := i%2 == 0
+		proxy := goat.NewProxy(ctx, "px", func(id string) (goat.RpcReadWriter, error) {
+			time.Sleep(time.Duration(2+i%5) * time.Millisecond)
+			if dialOK {
+				return NewScript(16), nil
+			}
+			return nil, errPxUnknown
+		}, nil, nil)
+		a := NewScript(16)
+		proxy.AddClient("a", a)
+		served := make(chan struct{})
+		go func() { defer close(served); proxy.Serve() }()
+		a.In <- pxGoodEnv(1, "a", "x") // the proxy starts dialling x
+		time.Sleep(time.Duration(i%4) * time.Millisecond)
+		x := NewScript(16)
+		proxy.AddClient("x", x)
+		a.In <- pxGoodEnv(2, "a", "x")
+		time.Sleep(8 * time.Millisecond)
+		cancel()
+		a.FailRead(errInjectedRead)
+		x.FailRead(errInjectedRead)
+		<-served
+		r.Eval(fmt.Sprintf("apiuse/dialattach/%d", i), true)
+		r.Count("apiuse.dialattach")
 	}
 	// the connection fails (read side and write side) while streams are sending and receiving and unary
 	// calls are being made: the error paths of the multiplexer run concurrently with its read loop's end
